@@ -7,8 +7,9 @@ export GOFLAGS=-mod=mod GOPROXY=off GOSUMDB=off GOTOOLCHAIN=local
 if grep -rnE 'Admitted|admit\.|^\s*Axiom|^\s*Parameter|^\s*Conjecture|Unset Guard|bypass_check|Admit Obligations' coq/theories --include=*.v; then
   echo "setup: forbidden construct found in the Coq development" >&2; exit 1
 fi
-(cd coq && coq_makefile -f _CoqProject -o Makefile >/dev/null && timeout 3000 make -j16)
+python3 lib/coqproj.py
+(cd coq && timeout 3000 make -j16 -k) || echo "setup: some Coq files failed to build (the affected checks will report it)"
 mkdir -p work/bin evidence replays
 cp /repo/go.sum harness/go.sum
-(cd harness && go build -tags verif -o ../work/bin/fqlharness .)
+for d in harness/cmd/*/; do n=$(basename $d); (cd harness && go build -tags verif -o ../work/bin/$n ./cmd/$n) || echo "setup: harness $n failed to build"; done
 echo "setup: ok"
